@@ -261,7 +261,7 @@ fn build_case(line: &str) -> String {
     }
     if dmg == 6 && !hb.is_empty() {
         let (id, tpe, o, l, u) = hk::blob_fields(&hb[0]);
-        hb[0] = hk::mk_blob(id, tpe, o, l + extra as u32, u);
+        hb[0] = hk::mk_blob(id, tpe, o, l.wrapping_add(extra as u32), u);
     }
     let mut plain = hk::header_to_binary(&hb).unwrap();
     if dmg == 5 {
